@@ -44,6 +44,23 @@ def cases(tier, rng, schema, feats):
     for variant in UNIT_RESPONSES:
         out.append(f"C02.{n}\tenc2\t{variant}\t64\t{rng.bytes(9).hex()}\t-")
         n += 1
+    # relying-party and user entities in responses whose text members start with something a helper might single out
+    cm_t = RESPONSES.get("CredentialManagement")
+    if cm_t:
+        for pre in gen.TEXT_PREFIXES:
+            base = g.named_val(cm_t, present=frozenset(["rp", "user"]))
+            txt = (pre + "example.com/app-id.json").encode()
+            def retext(v):
+                if v[0] == "s":
+                    return ("s", txt[:64])
+                if v[0] == "S":
+                    return ("S", retext(v[1]))
+                if v[0] == "R":
+                    return ("R", [(l, retext(x)) for l, x in v[1]])
+                return v
+            fs = [(l, retext(x) if l in ("rp", "user") else x) for l, x in base[1]]
+            out.append(f"C02.{n}\tenc2\tCredentialManagement\t7609\t-\t{gen.show(('R', fs))}")
+            n += 1
     # the advertised algorithm list carries whatever identifiers the authenticator put there: every COSE identifier in -70..7,
     # the neighbours of -257 / -65535 and the i32 range ends, alone and next to a second entry
     gi_t = RESPONSES.get("GetInfo")
